@@ -41,6 +41,8 @@ claimed = {
          "bounds as stated; RetryIfErrUpstream, MaxConnWaitTimeout, TLS and real sockets outside", "§0 C19"),
  "C20": ("the real redirect loop with a recording fake client: one redirect hop whose Location carries ≤2 arbitrary host-label bytes plus look-alike suffixes, ports, userinfo and scheme variants (thorough adds all two-hop chains over the fixed suffix grammar): credentials are never sent to a host that is neither a.co nor a dot-suffix subdomain, at most MaxRedirects hops are followed, 303 becomes a body-less GET/HEAD and POST becomes GET on 301/302",
          "bounds as stated; IPv6/percent-escaped hosts and Client/HostClient wrappers outside", "§0 C20"),
+ "C23": ("the real FS handler over a recording in-memory fs.FS: for every request target of '/' + ≤2/≤3 arbitrary bytes (through the real URI parser), Root ∈ {r, r/s, empty}, compression on/off and each built-in rewriter with counts 0..2 (arbitrary host bytes for the virtual-host rewriter), every name passed to Open is the root or lexically inside it, NUL paths open nothing (400), and '..' after rewriting opens nothing",
+         "fs.FS mode only; os-level opens, symlinks and Windows paths outside; one known finding excluded (<root>.fasthttp.gz looked up next to the root)", "§0 C23"),
  "C24": ("ParseByteRange clause: for every range spec of ≤5/≤7 arbitrary bytes and every non-negative content length an accepted range satisfies 0 ≤ start ≤ end < length; the three RFC 9110 forms with ≤3/≤5 symbolic digits are accepted iff satisfiable with the right values",
          "only the ParseByteRange clause; FS 206/416/304/HEAD behaviour on files outside", "§0 C24"),
  "C26": ("URI.SetPathBytes→Path equals an independent RFC 3986 remove_dot_segments reference for every byte string of length ≤5 (quick) / ≤7 (thorough), incl. percent-escapes",
@@ -71,7 +73,6 @@ na = {
  "C18": "not built: the inductive step over HostClient's pool operations needs a representation invariant for conns/connsWait/wantConn that was not written in this build",
  "C21": "not built: requires the client dial path with a stubbed TLS stack under the interpreter (see C04)",
  "C22": "codec internals (compress/flate, brotli, zstd) are loops over whole buffers that a bit-blasting back end cannot decide, and the abstraction of codecs as uninterpreted functions plus the stackless queue oracle was not built",
- "C23": "not built: fsHandler.handleRequest depends on os/io-fs calls that need a harness file system; not brought up under the interpreter in this build",
  "C25": "not built: the cache-manager inductive step with ghost reader/release counts was not written in this build",
  "C35": "not built: multipart parsing (mime/multipart) and temp-file interception were not brought up under the interpreter",
  "C36": "the oracle is net/http's own server; differential behaviour of two full HTTP servers is outside bounded symbolic execution of this code",
